@@ -54,15 +54,18 @@ def pack(tx, idx):
     return [t.serialize_segwit(), idx, pre]
 
 
-def unpack(ctx):
-    raw, idx, pre = ctx
-    tx = Tx.parse(BytesIO(raw))
+def assign_spent(tx, pre):
     from buidl.script import ScriptPubKey
     from buidl.helper import encode_varstr
     for ti, (amount, spk) in zip(tx.tx_ins, pre):
         ti._value = amount
         ti._script_pubkey = ScriptPubKey.parse(BytesIO(encode_varstr(spk)))
-    return tx, idx
+    return tx
+
+
+def unpack(ctx):
+    raw, idx, pre = ctx
+    return assign_spent(Tx.parse(BytesIO(raw)), pre), idx
 
 
 def model_args(ctx):
@@ -1713,8 +1716,480 @@ def p_built_all(kinds, salt, via):
 PROPS.update({"built_spend": p_built_spend, "built_all": p_built_all, "finalize_api": p_finalize_api, "p2tr_api": p_p2tr_api, "lib_signed": p_lib_signed,
               "tx_verify": p_tx_verify})
 
+# ----------------------------------------------------------------- entry points, defaults, shared objects
+# Every case above reaches verify_input through ONE construction path: Tx.parse of a segwit serialisation, with
+# _value / _script_pubkey assigned (typed ScriptPubKey objects).  The cases below drive the other ways a caller
+# gets there: objects made by the constructors (all arguments / defaults filled in place afterwards), spent outputs
+# looked up through TxFetcher.cache (what the library's own callers do), a legacy serialisation, Tx.clone();
+# Tx.verify() against verify_input(i) for EVERY i on transactions whose inputs are all of different kinds, hash
+# types and sequences; the fee test of Tx.verify() at its boundary; the sign_* / get_sig_* helpers with their
+# default arguments, with a key that does not own the output, and again with the right key on the SAME object.
+
+import buidl.tx as _btx
+
+
+def _no_network(*a, **k):
+    raise RuntimeError("the harness never touches the network")
+
+
+_btx.urlopen = _no_network
+
+M_PLANS = [["p2pkh", "p2sh-p2wpkh", "p2wsh-ms"],           # no taproot input: a legacy input's amount is not signed
+           ["p2tr-key", "p2sh-ms", "p2tr-script", "p2wpkh"],
+           ["p2pkh", "p2sh-ms", "p2pkh"]]                  # legacy only; inputs 0 and 2 spend the same script
+M_STYLES = ["parsed", "constructors-explicit", "constructor-defaults-filled-in-place", "looked-up-through-TxFetcher",
+            "legacy-serialisation-parsed", "constructors-segwit-flag-false"]
+M_FEES = ["generous", "exactly-the-virtual-size", "one-below-the-virtual-size", "negative"]
+
+
+def ser_tx_legacy(txv):
+    c = _c05
+    ver, ins, outs, lt = txv
+    out = c._u32(ver) + c._cs(len(ins))
+    for pt, pi, sc, sq, _w in ins:
+        out += pt[::-1] + c._u32(pi) + c._sscript(c.ref_raw_script(sc)) + c._u32(sq)
+    out += c._cs(len(outs))
+    for am, sc in outs:
+        out += c._i64(am) + c._sscript(c.ref_raw_script(sc))
+    return out + c._u32(lt)
+
+
+def m_part(kind, keys, j):
+    """one input of a hand-made transaction: scriptPubKey, placement, placeholder items, signer"""
+    K, K2, F = keys[j % len(keys)], keys[(j + 1) % len(keys)], keys[(j + 3) % len(keys)]
+    ph = b"\x30" * 71
+    wit_only = lambda items: ([], list(items))                                   # noqa: E731
+    if kind in ("p2pkh", "p2wpkh", "p2sh-p2wpkh"):
+        sec = K.sec(compressed=(kind != "p2pkh" or j % 2 == 0))
+        if kind == "p2pkh":
+            spk, place = [0x76, 0xa9, _h160(sec), 0x88, 0xac], (lambda items: (_push(items), []))
+        elif kind == "p2wpkh":
+            spk, place = [0, _h160(sec)], wit_only
+        else:
+            redeem = b"\x00\x14" + _h160(sec)
+            spk, place = [0xa9, _h160(redeem), 0x87], (lambda items: ([redeem], list(items)))
+        return dict(spk=spk, place=place, ph=[ph, sec], key=K, foreign=F, ecdsa=True,
+                    sign=lambda z, ht, key: [key.ecdsa(z, ht), sec])
+    if kind.endswith("-ms"):
+        spk, place = wrap_script(kind[:-3], [0x51, K.sec(), K2.sec(compressed=False), 0x52, 0xae])
+        return dict(spk=spk, place=place, ph=[b"", ph], key=K, foreign=F, ecdsa=True,
+                    sign=lambda z, ht, key: [b"", key.ecdsa(z, ht)])
+    if kind == "p2tr-key":
+        return dict(spk=[0x51, K.tweaked().xonly()], place=wit_only, ph=[b""], key=K.tweaked(), foreign=F, ecdsa=False,
+                    sign=lambda z, ht, key: [key.schnorr(z, ht)])
+    if kind == "p2tr-script":
+        spk, place, _cb = wrap_tap([K.xonly(), 0xac], K2, [_sha(b"sibling %d" % j)], b"\x50\x07")
+        return dict(spk=spk, place=place, ph=[b""], key=K, foreign=F, ecdsa=False,
+                    sign=lambda z, ht, key: [key.schnorr(z, ht)])
+    raise ValueError(kind)
+
+
+class MTx:
+    """a hand-made transaction in which EVERY input is a signed spend of its own kind (own signer, reference
+    digests), each with another hash type and sequence; the outputs spent are outputs of hand-serialised previous
+    transactions (inputs 0 and 1 spend outputs 1 and 0 of ONE of them, next to decoy outputs)"""
+
+    def __init__(self, salt, plan, fee_mode=0):
+        import random
+        r = random.Random("c06-mtx:%d:%d" % (salt, plan))
+        rb = lambda n: bytes(r.getrandbits(8) for _ in range(n))       # noqa: E731
+        keys = key_pool(salt)
+        self.kinds = kinds = M_PLANS[plan]
+        self.n = n = len(kinds)
+        # the legacy-only plan spends ONE p2pkh script twice (inputs 0 and 2): Tx.verify() must look at both
+        self.parts = [m_part(k, keys, (0 if plan == 2 and j == 2 else j) + salt) for j, k in enumerate(kinds)]
+        amounts = [r.choice([60000, 2 ** 32 + 5, 10 ** 8]) + j for j in range(n)]
+        self.spent = [[amounts[j], S(self.parts[j]["spk"])] for j in range(n)]
+        self.hts = [(HT_ECDSA[(salt + j) % 6] if p["ecdsa"] else HT_SCHNORR[(salt + j) % 7])
+                    for j, p in enumerate(self.parts)]
+
+        def decoy(j):
+            return [amounts[j] + 1 + r.randrange(9), S([0x76, 0xa9, rb(20), 0x88, 0xac])]
+
+        def prev(outs):
+            raw = (_c05._u32(1) + b"\x01" + rb(32) + _c05._u32(r.randrange(4)) + b"\x00" + _c05._u32(0xffffffff)
+                   + _c05._cs(len(outs)) + b"".join(_c05._i64(a) + _c05._sscript(_c05.ref_raw_script(s)) for a, s in outs)
+                   + _c05._u32(0))
+            self.prevs[_c05._dsha(raw)[::-1]] = raw
+            return _c05._dsha(raw)[::-1]
+        self.prevs = {}
+        points = [None] * n
+        if n >= 2:
+            txid = prev([self.spent[1], self.spent[0], decoy(0)])
+            points[0], points[1] = (txid, 1), (txid, 0)
+        for j in range(2 if n >= 2 else 0, n):
+            pi = j % 3
+            points[j] = (prev([decoy(j) for _ in range(pi)] + [self.spent[j], decoy(j)]), pi)
+        seqs = [0xffffffff, 0xfffffffe, 0, 5]
+        self.ins = [[points[j][0], points[j][1], seqs[(j + salt) % 4]] for j in range(n)]
+        self.version = 1 + (salt + plan) % 2
+        self.lock = [0, 499999999, 1700000000][(salt + plan) % 3]
+        total = sum(amounts)
+        self.out_sum = out_sum = total + 1000 if fee_mode == 3 else total - 5000
+        self.outs = [[out_sum // n + (out_sum % n if j == 0 else 0), S([0x76, 0xa9, rb(20), 0x88, 0xac])] for j in range(n)]
+
+    def value(self, items):
+        ins = []
+        for j, p in enumerate(self.parts):
+            ss, wit = p["place"](items[j])
+            ins.append([self.ins[j][0], self.ins[j][1], S(ss), self.ins[j][2], list(wit)])
+        return [self.version, ins, self.outs, self.lock]
+
+    def signed(self, bad=-1):
+        """the stack items of every input; input `bad` is signed by a key that is not in its script"""
+        v = self.value([p["ph"] for p in self.parts])
+        items = []
+        for j, p in enumerate(self.parts):
+            d = _c05.ref_sig_hash(v, self.spent, j, self.hts[j])
+            if d is None:
+                raise ValueError("the reference defines no digest for this spend")
+            items.append(p["sign"](d[2], self.hts[j], p["foreign"] if j == bad else p["key"]))
+        return items
+
+    def settle_fee(self, items, fee_mode):
+        """fee := BIP141 virtual size (mode 1) or one less (mode 2), by the amount of a LEGACY input (which no
+        signature of this transaction commits to: there is no taproot input)"""
+        v = self.value(items)
+        vsize = (3 * len(ser_tx_legacy(v)) + len(ser_tx(v)) + 3) // 4
+        j = [k for k, kind in enumerate(self.kinds) if kind in ("p2pkh", "p2sh-ms")][0]
+        if any(k.startswith("p2tr") for k in self.kinds):
+            raise ValueError("a taproot input commits to every amount")
+        others = sum(a for k, (a, _s) in enumerate(self.spent) if k != j)
+        self.spent[j][0] = self.out_sum + vsize - (1 if fee_mode == 2 else 0) - others
+        self.prevs = None                       # the previous transactions no longer carry this amount
+
+    def build(self, style, items):
+        """the library objects of this transaction, made in one of M_STYLES"""
+        v = self.value(items)
+        pre = [[a, _c05.ref_raw_script(s)] for a, s in self.spent]
+        if style == 0:
+            return unpack([ser_tx(v), 0, pre])[0]
+        if style == 4:
+            if any(i[4] for i in v[1]):
+                raise ValueError("a legacy serialisation carries no witness")
+            return assign_spent(Tx.parse(BytesIO(ser_tx_legacy(v))), pre)
+        ver, ins, outs, lock = v
+        if style == 2:
+            tins = [TxIn(pt, pi) if sq == 0xffffffff else TxIn(pt, pi, sequence=sq) for (pt, pi, _sc, sq, _w) in ins]
+            for ti, (_pt, _pi, sc, _sq, wit) in zip(tins, ins):          # the constructors' own objects, filled in place
+                ti.script_sig.commands.extend(sc[0])
+                ti.witness.items.extend(wit)
+        else:
+            tins = []
+            for (pt, pi, sc, sq, wit) in ins:
+                ti = TxIn(pt, pi, Script(list(sc[0])), sq)
+                ti.witness = Witness(list(wit))
+                tins.append(ti)
+        if style != 3:
+            for ti, (a, s) in zip(tins, self.spent):
+                ti._value, ti._script_pubkey = a, Script(list(s[0]))
+        touts = [TxOut(a, Script(list(s[0]))) for a, s in outs]
+        if style == 2 and lock == 0:
+            return Tx(ver, tins, touts, network="mainnet", segwit=True)
+        return Tx(ver, tins, touts, lock, network="testnet" if style == 3 else "mainnet", segwit=(style != 5))
+
+
+def p_all_inputs(salt, plan, style, bad, fee_mode):
+    """Tx.verify() and verify_input(i) on a transaction in which every input is a spend of another kind: all properly
+    signed and the fee at least the BIP141 virtual size -> Tx.verify() is True (and an input verified again on the
+    same object, and after a clone of the transaction was emptied, still verifies); input `bad` signed by a foreign
+    key -> Tx.verify() is not True, verify_input(bad) is not True, the next input still verifies; a fee below the
+    virtual size or negative -> Tx.verify() is not True while the inputs verify"""
+    mt = MTx(salt, plan, fee_mode)
+    items = mt.signed(bad)
+    if fee_mode in (1, 2):
+        mt.settle_fee(items, fee_mode)
+    what = "%s; fee %s; inputs %s" % (M_STYLES[style], M_FEES[fee_mode], " + ".join(mt.kinds))
+    loaded = []
+    try:
+        if style == 3:
+            for txid, raw in mt.prevs.items():               # as TxFetcher.load_cache does
+                _btx.TxFetcher.cache[txid.hex()] = Tx.parse_hex(raw.hex())
+                loaded.append(txid.hex())
+        tx = mt.build(style, items)
+        try:
+            got = quiet(tx.verify)
+        except Exception as e:
+            got = "raised %s: %s" % (type(e).__name__, e)
+        n = mt.n
+        if bad < 0 and fee_mode in (0, 1):
+            if got is not True:
+                return "Tx.verify() is %r for a transaction whose inputs are all properly signed (%s); verify_input per input: %s" % (
+                    got, what, [verdict(tx, i) for i in range(n)])
+            i = salt % n
+            if not verdict(tx, i):
+                return "verify_input(%d) is not True after Tx.verify() was True on the same object (%s)" % (i, what)
+            if style in (1, 3):
+                c = quiet(tx.clone)
+                i = (salt + 1) % n
+                c.tx_ins[i].script_sig.commands[:] = []
+                c.tx_ins[i].witness.items[:] = []
+                if verdict(c, i):
+                    return "input %d of a clone verifies with an empty scriptSig and witness (%s)" % (i, what)
+                if not verdict(tx, i):
+                    return "input %d no longer verifies after the same input of a CLONE was emptied (%s)" % (i, what)
+        elif bad >= 0:
+            if got is True:
+                return "Tx.verify() is True although input %d is signed by a key outside its script (%s)" % (bad, what)
+            if verdict(tx, bad):
+                return "verify_input(%d) accepts a signature by a key outside the script (%s)" % (bad, what)
+            j = (bad + 1) % n
+            if not verdict(tx, j):
+                return "verify_input(%d) rejects a properly signed input of a transaction whose input %d is invalid (%s)" % (j, bad, what)
+        else:
+            if got is True:
+                return "Tx.verify() is True with a fee %s (%s)" % (M_FEES[fee_mode], what)
+            i = salt % n
+            if not verdict(tx, i):
+                return "verify_input(%d) rejects a properly signed input (%s)" % (i, what)
+    finally:
+        for k in loaded:
+            _btx.TxFetcher.cache.pop(k, None)
+    return None
+
+
+SIGN_SCENARIOS = ["wrong-key-then-right-key/p2pkh", "wrong-key-then-right-key/p2wpkh", "wrong-key-then-right-key/p2sh-p2wpkh",
+                  "wrong-key-then-right-key/p2tr", "p2tr-hash-type/sign_input", "p2tr-hash-type/sign_p2tr_keypath-with-aux",
+                  "get_sig_legacy/redeem-script-left-to-the-default", "get_sig_segwit/witness-script-left-to-the-default",
+                  "get_sig_taproot/ext_flag-left-to-the-default"]
+
+
+def p_sign_api(scenario, salt, variant):
+    """The signing helpers on transactions made with the constructors' defaults (TxIn(prev_tx, prev_index) only).
+    What sign_* RETURNS is a verdict too: with a key that does not own the output it is not True (and the input does
+    not verify), with the right key on the SAME object afterwards it is True, signing the second input (which shares
+    its scriptPubKey object with the first) leaves the first valid.  variant bit 0: through Tx.sign_input.  Taproot
+    hash types through sign_input(hash_type=) / sign_p2tr_keypath(hash_type=, aux=).  A get_sig_* call that leaves
+    redeem_script / witness_script / ext_flag to the default signs another message: the spend finalised with it must
+    not verify, the one made with the argument (same TxIn object) must."""
+    import random
+    name = SIGN_SCENARIOS[scenario]
+    r = random.Random("c06-sign:%d:%d" % (salt, scenario))
+    rb = lambda n: bytes(r.getrandbits(8) for _ in range(n))       # noqa: E731
+    keys = key_pool(salt)
+    A, W = keys[(salt + scenario) % len(keys)], keys[(salt + scenario + 2) % len(keys)]
+    via_input = bool(variant & 1)
+
+    def mk(spk_cmds, n_in):
+        spk = Script(list(spk_cmds))                      # ONE object for every input
+        tins = []
+        for k in range(n_in):
+            ti = TxIn(rb(32), k)
+            ti._value, ti._script_pubkey = 70000 + k, spk
+            tins.append(ti)
+        return Tx(2, tins, [TxOut(60000, Script([0x76, 0xa9, rb(20), 0x88, 0xac]))], network="mainnet", segwit=True)
+
+    def call(f, *a, **k):
+        try:
+            return quiet(lambda: f(*a, **k))
+        except Exception as e:
+            return "raised %s" % type(e).__name__
+
+    if name.startswith("wrong-key"):
+        kind = name.split("/")[1]
+        compressed = not (kind == "p2pkh" and salt % 2)
+        sec = A.sec(compressed=compressed)
+        redeem = None
+        if kind == "p2tr":
+            spk = [0x51, A.tweaked().xonly()]
+            right, wrong = PrivateKey(A.tweaked().d), PrivateKey(W.tweaked().d if salt % 2 else A.d)
+        else:
+            right, wrong = PrivateKey(A.d, compressed=compressed), PrivateKey(W.d)
+            if kind == "p2pkh":
+                spk = [0x76, 0xa9, _h160(sec), 0x88, 0xac]
+            elif kind == "p2wpkh":
+                spk = [0, _h160(sec)]
+            else:
+                redeem = RedeemScript([0, _h160(sec)])
+                spk = [0xa9, _h160(b"\x00\x14" + _h160(sec)), 0x87]
+                via_input = True
+        tx = mk(spk, 2)
+
+        def sign(i, key):
+            if via_input:
+                return call(tx.sign_input, i, key, redeem) if redeem else call(tx.sign_input, i, key)
+            return call({"p2pkh": tx.sign_p2pkh, "p2wpkh": tx.sign_p2wpkh, "p2tr": tx.sign_p2tr_keypath}[kind], i, key)
+        how = "sign_input" if via_input else "sign_" + kind.replace("-", "_")
+        if redeem is not None:
+            got = call(tx.sign_input, 0, right)
+            if got is True or verdict(tx, 0):
+                return "sign_input on a p2sh output without the redeem script returned %r" % (got,)
+        got = sign(0, wrong)
+        if got is True:
+            return "%s with a key that does not own the %s output returned True" % (how, kind)
+        got = sign(0, right)
+        if got is not True:
+            return "%s with the right key returned %r (after a call with a wrong key on the same object)" % (how, got)
+        ti = tx.tx_ins[0]
+        placed = (ti.script_sig.commands if kind == "p2pkh" else ti.witness.items)
+        if kind != "p2tr" and (len(placed) != 2 or placed[1] != sec or placed[0][-1:] != b"\x01"):
+            return "%s left %s, expected [signature ending 01, %s]" % (how, [x.hex() for x in placed], sec.hex())
+        if kind == "p2tr" and (len(placed) != 1 or len(placed[0]) != (65 if via_input else 64)):
+            return "%s left the witness %s" % (how, [x.hex() for x in placed])
+        if kind == "p2sh-p2wpkh" and ti.script_sig.commands != [b"\x00\x14" + _h160(sec)]:
+            return "%s left the scriptSig %r" % (how, ti.script_sig.commands)
+        if kind == "p2tr":
+            return "the unsigned second input verifies" if verdict(tx, 1) else None
+        got = sign(1, right)
+        if got is not True:
+            return "%s on the second input (same scriptPubKey object) returned %r" % (how, got)
+        got = sign(1, wrong)
+        if got is True:
+            return "%s with a wrong key returned True on an input that was validly signed before" % how
+        if not verdict(tx, 0):
+            return "input 0 no longer verifies after input 1 was signed (right key, then wrong key)"
+        return None
+    if name.startswith("p2tr-hash-type"):
+        T = A.tweaked()
+        tx = mk([0x51, T.xonly()], 1)
+        key = PrivateKey(T.d)
+        if name.endswith("sign_input"):
+            ht = (0, 2, 3)[variant % 3]
+            got = call(tx.sign_input, 0, key, None, ht)
+        else:
+            ht = (0x81, 0x82, 0x83)[variant % 3]
+            got = call(tx.sign_p2tr_keypath, 0, key, ht, b"\xff" * 32)
+        if got is not True:
+            return "%s with hash type %#x returned %r" % (name, ht, got)
+        w = tx.tx_ins[0].witness.items
+        if len(w) != 1 or (w[0][64:] != (bytes([ht]) if ht else b"")):
+            return "%s with hash type %#x left the witness %s" % (name, ht, [x.hex() for x in w])
+        return None
+    # ---- get_sig_* with and without the script argument, finalised on ONE TxIn object
+    cmds = [0x51, A.sec(), 0x51, 0xae]
+    key = PrivateKey(A.d)
+    if name.startswith("get_sig_legacy"):
+        spk, _place = wrap_script("p2sh", cmds)
+        tx, script = mk(spk, 1), RedeemScript(list(cmds))
+        get = [lambda: tx.get_sig_legacy(0, key), lambda: tx.get_sig_legacy(0, key, redeem_script=script)]
+        fin = tx.tx_ins[0].finalize_p2sh_multisig
+    elif name.startswith("get_sig_segwit"):
+        wrapped = bool(variant & 1)
+        spk, _place = wrap_script("p2sh-p2wsh" if wrapped else "p2wsh", cmds)
+        tx, script = mk(spk, 1), WitnessScript(list(cmds))
+        get = [lambda: tx.get_sig_segwit(0, key), lambda: tx.get_sig_segwit(0, key, witness_script=script)]
+        fin = tx.tx_ins[0].finalize_p2sh_p2wsh_multisig if wrapped else tx.tx_ins[0].finalize_p2wsh_multisig
+    else:
+        leaf = [A.xonly(), 0xac]
+        spk, place, _cb = wrap_tap(leaf, W)
+        tx, script = mk(spk, 1), None
+        tx.tx_ins[0].witness = Witness(place([b""])[1])
+
+        def fin(sigs, _script):
+            tx.tx_ins[0].witness = Witness(place(sigs)[1])
+        get = [lambda: tx.get_sig_taproot(0, key), lambda: tx.get_sig_taproot(0, key, ext_flag=1)]
+    first = call(get[0])
+    if isinstance(first, bytes):
+        fin([first], script)
+        if verdict(tx, 0):
+            return "%s: the spend finalised with that signature verifies" % name
+    good = call(get[1])
+    if not isinstance(good, bytes):
+        return "%s: the call WITH the argument returned %r" % (name, good)
+    fin([good], script)
+    if not verdict(tx, 0):
+        return "%s: the spend finalised with the signature made WITH the argument does not verify" % name
+    return p_valid_spend(pack(tx, 0))
+
+
+PROPS.update({"all_inputs": p_all_inputs, "sign_api": p_sign_api})
+
+
+def gen_entry(ctx):
+    """p_all_inputs / p_sign_api plans; byte classes of witness version, leaf version, annex and key-path items"""
+    r = ctx.rng
+    quick = ctx.tier == "quick"
+    salt = ctx.seed
+    # ---- every input another kind: construction paths x all valid / each input invalid / fee boundary
+    valid = [(0, 2, 1), (0, 3, 0), (1, 1, 0), (1, 3, 0), (2, 4, 0), (2, 5, 0)]
+    if not quick:
+        valid += [(0, 1, 1)] + [(p, s, 0) for p in (0, 1) for s in (0, 1, 2, 3)] + [(2, s, 0) for s in (0, 1, 2, 3)]
+    for plan, style, fee in valid:
+        ctx.label("all_inputs/valid/" + M_STYLES[style])
+        ctx.label("all_inputs/fee/" + M_FEES[fee])
+        yield ("prop", "all_inputs", [salt, plan, style, -1, fee])
+    for plan in (0, 1, 2):
+        for bad in range(len(M_PLANS[plan])):
+            styles = [1, 2, 3, 0] if plan < 2 else [4, 5, 3, 2]
+            for style in ([styles[(bad + salt) % 4]] if quick else styles):
+                ctx.label("all_inputs/one-invalid/" + M_STYLES[style])
+                yield ("prop", "all_inputs", [salt, plan, style, bad, 0])
+    for plan, style, fee in [(0, 1, 2), (0, 3, 3), (2, 4, 3), (1, 2, 3), (0, 0, 2)]:
+        ctx.label("all_inputs/fee/" + M_FEES[fee])
+        yield ("prop", "all_inputs", [salt, plan, style, -1, fee])
+    # ---- signing helpers: wrong key / retry / defaults
+    for s, name in enumerate(SIGN_SCENARIOS):
+        variants = [(salt + s) % 3 if name.startswith("p2tr-hash") else (salt + s) % 2] if quick else \
+            ([0, 1, 2] if name.startswith("p2tr-hash") else [0, 1])
+        for v in variants:
+            ctx.label("sign_api/" + name)
+            yield ("prop", "sign_api", [s, salt, v])
+    # ---- byte classes
+    keys = key_pool(salt)
+    emit = _Emit(ctx)
+    rb = lambda n: bytes(r.getrandbits(8) for _ in range(n))       # noqa: E731
+    wit_only = lambda items: ([], list(items))                     # noqa: E731
+    # witness versions and program lengths other than the three the library knows: the model decides
+    progs = [(0x52, 32), (0x60, 32), (0x51, 20), (0x51, 33), (0x51, 31), (0, 21), (0, 33), (0, 19), (0x4f, 32), (0x50, 32)]
+    for c, (op, ln) in enumerate(progs):
+        if quick and c % 2 != salt % 2 and c > 3:
+            continue
+        sp = HSpend(r, [op, rb(ln)], wit_only, SHAPES[c % 6])
+        yield from emit(sp, [], None, "scriptPubKey <op %#x> <%d bytes> with an empty witness" % (op, ln))
+        yield from emit(sp, [b"\x01"], None, "scriptPubKey <op %#x> <%d bytes> with a witness item" % (op, ln))
+    # output keys of a particular byte class: nobody holds a key for them
+    K = keys[0]
+    s_forged = K.k if K.ry % 2 == 0 else N_ORD - K.k                 # R = sG: a "signature" for the point at infinity
+    forged = _b32(K.rx) + _b32(s_forged)
+    for name, x in (("32 zero bytes", bytes(32)), ("32 bytes ff", b"\xff" * 32), ("x = p", _b32(P_FLD))):
+        sp = HSpend(r, [0x51, x], wit_only, SHAPES[1])
+        yield from emit(sp, [forged], False, "key path, output key of %s, signature with R = sG" % name, corr=True)
+        yield from emit(sp, [bytes(64)], False, "key path, output key of %s, signature of 64 zero bytes" % name)
+    spk, place, _cb = wrap_tap([bytes(32), 0xac], keys[3])
+    yield from emit(HSpend(r, spk, place, SHAPES[2]), [forged], False, "tapscript <32 zero bytes> OP_CHECKSIG, signature with R = sG", corr=True)
+    # a key-path signature whose FIRST byte is 0x50 (alone it is no annex; below a real annex it is the signature)
+    T = keys[1].tweaked()
+    sp = HSpend(r, [0x51, T.xonly()], wit_only, SHAPES[3])
+    T50 = T.renonce(lambda c: c.rx >> 248 == 0x50, limit=3000)
+    if T50 is not None:
+        s50 = T50.schnorr(sp.digest(0, [b""]), 0)
+        yield from emit(sp, [s50], True, "key path, signature starting with the byte 50", corr=True)
+        yield from emit(sp, [s50, b""], False, "key path signature starting with 50 above an empty item")
+        yield from emit(sp, [b"", s50], False, "an empty item and a valid key-path signature starting with 50 as the last item")
+    else:
+        ctx.label("classes/no-nonce-found")
+    # leaf versions: the commitment is made with that version (the digest commits to it through the leaf hash)
+    Kl = keys[2]
+    for c, ver in enumerate((0xc2, 0xfe, 0x00, 0x50)):
+        if quick and ver in (0xfe, 0x00) and (c + salt) % 2:
+            continue
+        spk, place, cb = wrap_tap([Kl.xonly(), 0xac], keys[4], [], None, ver)
+        sp = HSpend(r, spk, place, SHAPES[c % 6])
+        try:
+            sg = Kl.schnorr(sp.digest(0, [b""]), 0)
+        except ValueError:
+            sg = Kl.schnorr(_sha(b"no digest"), 0)
+        yield from emit(sp, [sg], None, "leaf version %#x committed to, signed" % ver)
+        yield from emit(sp, [b""], False if ver != 0x50 else None, "leaf version %#x committed to, empty signature" % ver, corr=True)
+        yield from emit(sp, [], None, "leaf version %#x committed to, no stack item" % ver)
+    # annex classes: the shortest annex, an annex that looks like a control block / like a signature
+    spk, place, cb = wrap_tap([Kl.xonly(), 0xac], keys[4])
+    for c, annex in enumerate((b"\x50", b"\x50" + cb[1:], b"\x50" + bytes(63), b"\x50" * 65)):
+        a = HSpend(r, spk, (lambda items, annex=annex: ([], list(items) + [_c05.ref_raw_script(S([Kl.xonly(), 0xac])), cb, annex])),
+                   SHAPES[(c + 1) % 6])
+        if quick and c % 2 != salt % 2:
+            yield from emit(a, [b""], False, "script path with an annex of %d bytes, empty signature" % len(annex))
+            continue
+        yield from emit(a, [Kl.schnorr(a.digest(1, [b""]), 1)], True, "script path with an annex of %d bytes (%s...)" % (
+            len(annex), annex[:2].hex()), corr=c == 0)
+        b = HSpend.__new__(HSpend)
+        b.__dict__.update(a.__dict__)
+        b.place = (lambda items, annex=annex: ([], list(items) + [_c05.ref_raw_script(S([Kl.xonly(), 0xac])), cb, annex + b"\x01"]))
+        yield from emit(a, [Kl.schnorr(b.digest(1, [b""]), 1)], False, "script path with an annex, signed for a longer annex")
+
+
 def gen_new(ctx):
-    for g in (gen_subsets, gen_stack_bounds, gen_bad_keys, gen_taptrees, gen_der, gen_shapes, gen_api):
+    for g in (gen_subsets, gen_stack_bounds, gen_bad_keys, gen_taptrees, gen_der, gen_shapes, gen_api, gen_entry):
         yield from g(ctx)
 
 
